@@ -319,6 +319,15 @@ int main()
             planner->opRemove(start, (long)id);
             fin("ok");
         }
+        else if (op == "clear" && t.size() == 1)
+        {
+            // SBL::clear(): frees every motion, clears both grids and both PDFs; the planner is then used again
+            planner->clear();
+            planner->ids.clear();
+            for (auto &m : planner->byId)
+                m = nullptr;
+            fin("ok");
+        }
         else if (op == "sel" && treeOk && t.size() == 2)
         {
             if (planner->tree(start).pdf.empty()) { fin("empty"); continue; }   // selectMotion on an empty tree throws
